@@ -247,14 +247,29 @@ fn known_cells(obj: &Obj) -> HashMap<usize, String> {
 }
 
 fn lock_json(l: &LockState, names: &[String]) -> Value {
-    let mut r: Vec<&str> = l.readers.iter().map(|t| names[*t].as_str()).collect();
-    r.sort();
+    let mut r = Map::new();
+    for (t, n) in names.iter().enumerate() {
+        r.insert(n.clone(), json!(l.readers.contains(&t)));
+    }
     json!({"w": l.writer.map(|t| names[t].clone()).unwrap_or_else(|| "none".to_owned()), "r": r})
+}
+
+fn children_json(mfs: Vec<proto::MetricFamily>, keys: &[String]) -> Value {
+    let mut ch = BTreeMap::new();
+    for k in keys {
+        ch.insert(k.clone(), json!(-1));
+    }
+    for mf in mfs {
+        for m in mf.get_metric() {
+            ch.insert(label_of(m, "l"), num(crate::pm::counter_value(m)));
+        }
+    }
+    json!(ch)
 }
 
 /// Projection of the real object onto the model's shared state (called by the controller thread,
 /// which has no hook installed, so nothing here is a scheduling point).
-fn project(obj: &Obj, s: &Sched, names: &[String]) -> Value {
+fn project(obj: &Obj, s: &Sched, names: &[String], keys: &[String]) -> Value {
     match obj {
         Obj::Counter(c) => json!({"v": num(c.get())}),
         Obj::IntCounter(c) => json!({"v": c.get()}),
@@ -282,13 +297,7 @@ fn project(obj: &Obj, s: &Sched, names: &[String]) -> Value {
             let l = s.lock_state(v.verif_lock_addr());
             let mut o = json!({"lock": lock_json(&l, names)});
             if l.writer.is_none() {
-                let mut ch = BTreeMap::new();
-                for mf in v.collect() {
-                    for m in mf.get_metric() {
-                        ch.insert(label_of(m, "l"), num(crate::pm::counter_value(m)));
-                    }
-                }
-                o["children"] = json!(ch);
+                o["children"] = children_json(v.collect(), keys);
             }
             o
         }
@@ -296,13 +305,7 @@ fn project(obj: &Obj, s: &Sched, names: &[String]) -> Value {
             let l = s.lock_state(v.verif_lock_addr());
             let mut o = json!({"lock": lock_json(&l, names)});
             if l.writer.is_none() {
-                let mut ch = BTreeMap::new();
-                for mf in v.collect() {
-                    for m in mf.get_metric() {
-                        ch.insert(label_of(m, "l"), num(crate::pm::counter_value(m)));
-                    }
-                }
-                o["children"] = json!(ch);
+                o["children"] = children_json(v.collect(), keys);
             }
             o
         }
@@ -383,6 +386,7 @@ fn run_job(scen: &Value, names: &[String], job: &Value, budget: usize, want_ops:
             drop(loc);
         });
     }
+    let keys: Vec<String> = scen["obj"].get("keys").and_then(|x| x.as_array()).map(|a| a.iter().map(|x| x.as_str().unwrap().to_owned()).collect()).unwrap_or_default();
     let mode = job["mode"].as_str().unwrap_or("choices");
     let mut out = Map::new();
     out.insert("id".into(), job["id"].clone());
@@ -493,7 +497,7 @@ fn run_job(scen: &Value, names: &[String], job: &Value, budget: usize, want_ops:
                     }
                 }
                 if let Some(post) = step.get("post") {
-                    let real = project(&obj, &sched, names);
+                    let real = project(&obj, &sched, names, &keys);
                     if !subset_eq(post, &real) {
                         drift = Some(json!({"step": si, "why": "post-state differs", "t": tn, "expected": post, "actual": real}));
                     }
@@ -572,7 +576,7 @@ fn run_job(scen: &Value, names: &[String], job: &Value, budget: usize, want_ops:
     let panics: Vec<Value> = sched.panics().into_iter().enumerate().filter_map(|(t, p)| p.map(|m| json!({"t": names[t], "msg": m}))).collect();
     if !nonterm {
         sched.join();
-        out.insert("final".into(), project(&obj, &sched, names));
+        out.insert("final".into(), project(&obj, &sched, names, &keys));
         // observations made by the controller after every thread has finished (quiescent state)
         let mut loc = Locals::default();
         let fin = match &obj {
@@ -599,4 +603,45 @@ fn run_job(scen: &Value, names: &[String], job: &Value, budget: usize, want_ops:
         out.insert("ops".into(), Value::Array(ops));
     }
     Run { out }
+}
+
+/// Sequential (single-threaded) execution of call sequences: one JSON line per job {id, obj, ops}.
+pub fn run_seq(input: &str, output: &str) {
+    let f = std::io::BufReader::new(std::fs::File::open(input).expect("input"));
+    let mut w = std::io::BufWriter::new(std::fs::File::create(output).expect("output"));
+    for line in f.lines() {
+        let line = line.unwrap();
+        if line.trim().is_empty() {
+            continue;
+        }
+        let job: Value = serde_json::from_str(&line).unwrap();
+        let obj = make_obj(&job["obj"]);
+        let mut loc = Locals::default();
+        let mut calls = vec![];
+        for (i, op) in job["ops"].as_array().unwrap().iter().enumerate() {
+            let res = match std::panic::catch_unwind(std::panic::AssertUnwindSafe(|| exec(&obj, &mut loc, op))) {
+                Ok(v) => v,
+                Err(_) => json!("panic"),
+            };
+            let mut rec = op.as_object().unwrap().clone();
+            rec.insert("t".into(), json!("s"));
+            rec.insert("i".into(), json!(i + 1));
+            rec.insert("inv".into(), json!(2 * i + 1));
+            rec.insert("ret".into(), json!(2 * i + 2));
+            rec.insert("res".into(), res);
+            calls.push(Value::Object(rec));
+        }
+        let mut l2 = Locals::default();
+        let fin = match &obj {
+            Obj::Hist { .. } => json!({
+                "collect": exec(&obj, &mut l2, &json!({"k": "collect"})),
+                "count": exec(&obj, &mut l2, &json!({"k": "count"})),
+                "sum": exec(&obj, &mut l2, &json!({"k": "sum"})),
+            }),
+            Obj::CVec(_) | Obj::ICVec(_) | Obj::HVec(_) => json!({"collect": exec(&obj, &mut l2, &json!({"k": "collect"}))}),
+            _ => json!({"get": exec(&obj, &mut l2, &json!({"k": "get"}))}),
+        };
+        writeln!(w, "{}", json!({"id": job["id"], "obj": job["obj"], "calls": calls, "fin": fin})).unwrap();
+    }
+    w.flush().unwrap();
 }
